@@ -41,7 +41,7 @@ OPS_QUICK = ['str', 'external_references', 'iterate', 'is_fully_typed', 'eq_hash
              'refactor_reference', 'replace_this_with_var', 'replace_var_with_this', 'replace_var_with_literal',
              'negate', 'join_self', 'canonical_form', 'type_check_references', 'publish_event',
              'contains_reference', 'contains_self_reference', 'get_conjuncts', 'get_disjuncts', 'sanity_check', 'aliases_events', 'repr']
-SELS = ['root', 'child1', 'child2', 'grandchild', 'refleaf', 'result']
+SELS = ['root', 'child1', 'child2', 'grandchild', 'refleaf', 'thisleaf', 'result']
 
 
 def ast_children(o):
@@ -70,6 +70,15 @@ def select(root, sel, last):
     if sel == 'grandchild':
         g = ast_children(ch[0]) if ch else []
         return g[-1] if g else None
+    if sel == 'thisleaf':
+        from hpl.ast.expressions import HplThisMessage
+        stack = [root]
+        while stack:
+            o = stack.pop(0)
+            if isinstance(o, HplThisMessage):
+                return o
+            stack.extend(ast_children(o))
+        return None
     if sel == 'refleaf':
         stack = [root]
         while stack:
@@ -92,7 +101,7 @@ def schema():
     return d
 
 
-def apply(op, o, root):
+def apply(op, o, root, newalias='M'):
     """Returns (outcome, results[list of AST objects], but_fact)."""
     from hpl import rewrite as R
     from hpl.ast.base import HplAstObject
@@ -200,7 +209,7 @@ def apply(op, o, root):
         elif op == 'replace_this_with_var':
             if not (isexpr or ispred):
                 return NA
-            res = [R.replace_this_with_var(o, 'M')]
+            res = [R.replace_this_with_var(o, newalias)]      # a name no earlier schedule of this process has used
         elif op == 'replace_var_with_this':
             if not (isexpr or ispred):
                 return NA
@@ -260,8 +269,8 @@ def schedules(thorough, rep):
             out.append(json.loads(t[1]))
     # length 3 over the mutating part of the alphabet
     ops3 = ['cast_narrow', 'but_lit_num', 'but_lit_str', 'simplify', 'split_and', 'refactor_reference',
-            'replace_var_with_literal', 'replace_var_with_this', 'canonical_form', 'type_check_references', 'eq_hash']
-    sels3 = ['root', 'child1', 'grandchild', 'result'] if not thorough else SELS
+            'replace_var_with_literal', 'replace_var_with_this', 'replace_this_with_var', 'canonical_form', 'type_check_references', 'eq_hash']
+    sels3 = ['root', 'child1', 'grandchild', 'thisleaf', 'result'] if not thorough else SELS
     res = tlc.run_model('MC_Sched', cfg_text=cfgq % (3, q(ops3 if not thorough else OPS_QUICK[4:]), q(sels3)), workers=1, timeout=3000)
     if not res['ok']:
         raise tlc.MachineryError(res['out'][-2000:])
@@ -284,13 +293,28 @@ def run(replay=None):
     events, info = [], {}
     eid = 0
     tid = 0
-    budget = 60000 if thorough else 9000
-    pairs = [(s, sd) for sd in range(len(SEEDS)) for s in scheds]
-    if len(pairs) > budget:
-        # keep every schedule of length 1 on every seed; sample the rest
-        short = [p for p in pairs if len(p[0]) == 1]
-        rest = [p for p in pairs if len(p[0]) > 1]
-        pairs = short + rnd.sample(rest, budget - len(short))
+    QUERY = {'str', 'external_references', 'iterate', 'is_fully_typed', 'eq_hash', 'contains_reference', 'contains_self_reference',
+             'get_conjuncts', 'get_disjuncts', 'sanity_check', 'aliases_events', 'repr'}
+    nseeds = len(SEEDS)
+    prop_seeds = [i for i, (e, _) in enumerate(SEEDS) if e in ('property', 'specification')]
+    pred_seeds = [i for i in range(nseeds) if i not in prop_seeds]
+    PROP_OPS = {'canonical_form', 'type_check_references', 'aliases_events', 'sanity_check'}
+
+    def seeds_for(s, k):
+        pool = prop_seeds if any(c['op'] in PROP_OPS for c in s) else pred_seeds
+        return rnd.sample(pool, min(k, len(pool)))
+    pairs = []
+    rest = []
+    for s in scheds:
+        if len(s) == 1:
+            pairs += [(s, sd) for sd in range(nseeds)]                      # every single call on every seed
+        elif len(s) == 2 and s[0]['op'] not in QUERY and s[1]['op'] not in QUERY and s[1]['sel'] in ('root', 'result', 'child1'):
+            # a call that hands out a result, followed by another rewriting / copying call: on a few seeds each
+            pairs += [(s, sd) for sd in seeds_for(s, 4 if thorough else 1)]
+        else:
+            rest += [(s, sd) for sd in seeds_for(s, 2 if thorough else 1)]
+    extra = 40000 if thorough else 2500
+    pairs += rnd.sample(rest, min(len(rest), extra))
     done = 0
     for sched, sd in pairs:
         entry, text = SEEDS[sd]
@@ -305,7 +329,7 @@ def run(replay=None):
         snaps = [[[h, project(x, ids=True)] for h, x in handles]]
         for k, c in enumerate(sched):
             tgt = select(root, c['sel'], last)
-            out, res, but = apply(c['op'], tgt, root)
+            out, res, but = apply(c['op'], tgt, root, newalias='M%d' % tid)
             if out != 'na':
                 useful = True
             for r in res:
